@@ -38,6 +38,18 @@ def generate(rnd, tier):
         kp1 = ["", ") ", rnd.choice([1, 1, 0, 3])]; kp2 = rnd.choice([["", ") ", rnd.choice([5, 10, 2])], ["[", "] ", 1], None])
         cases.append({"op": "tree", "tree": ["list", rnd.random() < 0.5, rnd.randint(1, 3), None, 2, kp1, [["text", "w%d" % i] for i in range(n)]],
                       "ops": [["render", 40], ["set_kp", kp2], ["render", 40]]})
+    # a kept container with callbacks (some fail at some invocation): rendered, then several keys in turn; its items may be numbered containers with patterns of their own
+    for _ in range(600 if tier == "quick" else 6000):
+        n = rnd.randint(1, 5); off = rnd.choice([1, 1, 0, 4])
+        kp = [rnd.choice(["", "("]), rnd.choice([") ", "] "]), off]
+        def inner(j):
+            if rnd.random() < 0.5: return ["text", "w%d" % j]
+            return ["list", False, 1, None, 1, rnd.choice([["[", "] ", rnd.choice([7, 1, 20])], ["", ") ", 1], None]), [["text", "i%d_%d" % (j, q)] for q in range(rnd.randint(1, 4))]]
+        items = [inner(j) for j in range(n)]
+        cbs = [rnd.random() < 0.8 for _ in range(n)]
+        raise_on = {str(i): [rnd.choice([1, 1, 2])] for i in range(n) if cbs[i] and rnd.random() < 0.3}
+        keys = [str(rnd.randrange(n) + off) if rnd.random() < 0.8 else rnd.choice(["0", "9", "x", str(n + off)]) for _ in range(rnd.randint(2, 6))]
+        cases.append({"op": "keytree", "tree": ["list", False, 1, None, 2, kp, items], "w": 60, "cbs": cbs, "raise_on": raise_on, "keys": keys})
     return [with_cc(c) for c in cases]
 
 
@@ -48,6 +60,13 @@ def corpus():
 
 
 def compare(case, impl, model):
+    if case["op"] == "keytree":
+        v = tree_compare(case, [impl["render"]], [model["render"]])
+        if v: return v
+        for k, (a, b) in enumerate(zip(impl["keys"], model["keys"])):
+            if a["fired"] != b["fired"] or (not a["raised"] and a["handled"] != b["handled"]):
+                return "key #%d %r: implementation %r / model %r" % (k, case["keys"][k], a, b)
+        return None
     if case["op"] == "tree":
         from harness.props import C16
         return C16.compare(case, impl, model)
@@ -55,6 +74,21 @@ def compare(case, impl, model):
 
 
 def monitor(case, obs):
+    if case["op"] == "keytree":
+        _, _, _, _, sp, kp, items = case["tree"]; r = obs["render"]
+        labels = [kp[0] + str(i + kp[2]) + kp[1] for i in range(len(items))]
+        if "err" not in r:
+            # one column, short items: item i starts on the row below the items before it; its own number is what is shown in front of it
+            row = 0
+            for i, it in enumerate(items):
+                line = r["lines"][row] if row < len(r["lines"]) else ""
+                if not line.startswith(labels[i].rstrip()): return "item %d is selected by %r but the line it starts on shows %r" % (i, str(i + kp[2]), line[:20])
+                row += 1 if it[0] == "text" else len(it[6])
+        for k, (key, o) in enumerate(zip(case["keys"], obs["keys"])):
+            if o["n_fired"] > 1: return "key #%d %r invoked %d callbacks" % (k, key, o["n_fired"])
+            v = monitor({"op": "key", "kp": kp, "items": case["cbs"], "key": key}, {"handled": True if o["raised"] else o["handled"], "fired": o["fired"], "labels": labels})
+            if v: return "key #%d of the sequence %r: %s" % (k, case["keys"], v)
+        return None
     if case["op"] == "tree":
         # after the pattern was replaced and the container rendered again, every displayed label is the one the current pattern translates back
         kp = case["ops"][1][1]; o = obs[-1]
@@ -96,8 +130,9 @@ def monitor(case, obs):
     return None
 
 
-def nontrivial(case, obs): return case["op"] == "tree" or (case["op"] == "key" and (obs["fired"] is not None or obs["handled"]))
+def nontrivial(case, obs): return case["op"] in ("tree", "keytree") or (case["op"] == "key" and (obs["fired"] is not None or obs["handled"]))
 def outcome(case, obs):
     if case["op"] == "tree": return "pattern-change"
+    if case["op"] == "keytree": return "key-sequence" + ("/callback-raised" if any(o["raised"] for o in obs["keys"]) else "")
     if case["op"] == "int": return "int/" + ("value" if obs["val"] is not None else "ValueError")
     return "key/" + ("fired" if obs["fired"] is not None else "handled" if obs["handled"] else "unhandled")
